@@ -2820,16 +2820,16 @@ def allclose_units(actual, desired, rtol=1e-7, atol=0, **kwargs):
     else:
         at = atol
 
-    try:
-        at = at.in_units(act.units)
-    except (UnitOperationError, UnitConversionError):
+    if at.units.dimensions != act.units.dimensions:
         return False
+    # a tolerance is a difference: only the size of the unit matters, a
+    # zero-point offset (degC, degF) must not be applied to it
+    at = at.value * (at.units.base_value / act.units.base_value)
 
     # units have been validated, so we strip units before calling numpy
     # to avoid spurious errors
     act = act.value
     des = des.value
     rt = rt.in_units("dimensionless").value
-    at = at.value
 
     return np.allclose(act, des, rt, at, **kwargs)
